@@ -602,6 +602,26 @@ Register(c) ==
           /\ out' = [op |-> "Register", conf |-> c, status |-> "ok"]
   /\ UNCHANGED <<cfg, stack, okeys, oper, locked, usaved, interactive, singles, consts, hooks>>
 
+\* a binding made through any spelling of the configurable's name (string key / config text): the spelling is
+\* resolved against the registry as it is *now* (923-925); ambiguous spellings raise KeyError (get_match)
+BindSp(api, scope, sp, p, v) ==
+  /\ "BindSp" \in Enabled
+  /\ sp \in QuerySpellings /\ p \in ParamNames /\ v \in BindVals
+  /\ LET r == ResolveConf(sp)
+         base == [op |-> "Bind", api |-> api, scope |-> scope, spelling |-> sp, param |-> p, val |-> v]
+     IN IF locked
+        THEN /\ out' = base @@ [sel |-> <<>>, status |-> "RuntimeError", why |-> "locked"] /\ UNCHANGED cfg
+        ELSE IF r[1] = "none"
+        THEN /\ out' = base @@ [sel |-> <<>>, status |-> "ValueError", why |-> "unknown"] /\ UNCHANGED cfg
+        ELSE IF r[1] = "ambiguous"
+        THEN /\ out' = base @@ [sel |-> <<>>, status |-> "KeyError", why |-> "ambiguous"] /\ UNCHANGED cfg
+        ELSE IF BindVerdict(r[2], p) # "ok"
+        THEN /\ out' = base @@ [sel |-> r[2].sel, status |-> "ValueError", why |-> BindVerdict(r[2], p)] /\ UNCHANGED cfg
+        ELSE /\ HasKey(cfg, scope, r[2].sel, p) \/ Len(cfg) < MaxBindings
+             /\ cfg' = CfgPut(cfg, [scope |-> scope, sel |-> r[2].sel, param |-> p, val |-> v])
+             /\ out' = base @@ [sel |-> r[2].sel, status |-> "ok", why |-> "ok"]
+  /\ UNCHANGED <<reg, stack, okeys, oper, locked, usaved, interactive, singles, consts, hooks>>
+
 \* query_parameter (1081-1115) by spelling
 Query(scope, sp, p) ==
   /\ "Query" \in Enabled
@@ -654,6 +674,7 @@ Next ==
   \/ \E n \in ConstNames, v \in ConstVals, ok \in BOOLEAN : DefineConstant(n, v, ok)
   \/ \E on \in BOOLEAN : SetInteractive(on)
   \/ \E sc \in ScopePaths, sp \in QuerySpellings, p \in ParamNames : Query(sc, sp, p)
+  \/ \E api \in BindApis, sc \in ScopePaths, sp \in QuerySpellings, p \in ParamNames, v \in BindVals : BindSp(api, sc, sp, p, v)
 
 Spec == Init /\ [][Next]_vars
 
@@ -1017,6 +1038,17 @@ C06_Omits ==
   /\ \A st \in Serialize(cfg) : Representable(st.val)
   /\ \A i \in 1..Len(cfg) : (Representable(cfg[i].val) /\ cfg[i].sel # GinConstSel) =>
         \E st \in Serialize(cfg) : st.scope = cfg[i].scope /\ st.sel = cfg[i].sel /\ st.param = cfg[i].param
+
+------------------------------------------------------------------------------
+(* C08 (API half): every unambiguous spelling of one parameter is the same key *)
+C08_SameKey ==
+  [][(out'.op = "Query" /\ out'.status = "ok") =>
+       \E i \in 1..Len(cfg) : cfg[i].scope = out'.scope /\ cfg[i].param = out'.param /\ cfg[i].val = out'.val
+                              /\ ResolveConf(out'.spelling) = <<"one", ConfBySel(cfg[i].sel)>>]_vars
+\* an ambiguous or unknown spelling never reads or writes anything
+C08_AmbiguousRejected ==
+  [][(out'.op \in {"Bind", "Query"} /\ "spelling" \in DOMAIN out' /\ ResolveConf(out'.spelling)[1] # "one") =>
+       (out'.status \in {"KeyError", "ValueError", "RuntimeError"} /\ cfg' = cfg)]_vars
 
 ------------------------------------------------------------------------------
 (* state predicates over `out`, as action properties (so that VIEWs may drop `out`) *)
